@@ -20,39 +20,48 @@ from .sym import (And_, Arr, C, F, Implies_, Lazy, Not_, Or_, Seq, is_int, is_py
 
 
 class QFact:
-    """forall m in [0, n): body(m)   (body returns a z3 Bool / Python bool)"""
+    """forall m in prod(range(extents)): body(m)   (m a tuple; body returns a z3 Bool / Python bool)"""
 
-    def __init__(self, n, body, label=""):
-        self.n = n
+    def __init__(self, extents, body, label=""):
+        self.extents = tuple(extents)
         self.body = body
         self.label = label
 
 
-def add_qfact(n, body, label=""):
+def add_qfact(extents, body, label=""):
     c = cur()
-    q = QFact(n, body, label)
+    if not isinstance(extents, (tuple, list)):
+        extents = (extents,)
+        body1 = body
+        body = lambda m, body1=body1: body1(m[0])   # noqa: E731
+    q = QFact(extents, body, label)
     c.qfacts.append(q)
     for g in list(c.grounds):
         _inst(q, g)
     return q
 
 
-def ground(m):
-    """Register an index term; all quantified facts (existing and future) are instantiated at it."""
+def ground(*m):
+    """Register an index term (tuple for structured axes); all quantified facts of that arity
+    (existing and future) are instantiated at it."""
     c = cur()
-    key = zi(m).sexpr()
+    if len(m) == 1 and isinstance(m[0], tuple):
+        m = m[0]
+    key = tuple(zi(x).sexpr() for x in m)
     for g in c.grounds:
-        if zi(g).sexpr() == key:
-            return m
-    c.grounds.append(m)
+        if len(g) == len(m) and tuple(zi(x).sexpr() for x in g) == key:
+            return m[0] if len(m) == 1 else m
+    c.grounds.append(tuple(m))
     for q in list(c.qfacts):
-        _inst(q, m)
-    return m
+        _inst(q, tuple(m))
+    return m[0] if len(m) == 1 else m
 
 
 def _inst(q, m):
+    if len(m) != len(q.extents):
+        return
     c = cur()
-    rng = And_(zi(m) >= 0, zi(m) < zi(q.n))
+    rng = And_(*[And_(zi(x) >= 0, zi(x) < zi(n)) for x, n in zip(m, q.extents)])
     rng = simp(rng) if isinstance(rng, z3.ExprRef) else rng
     if rng is False:
         return
@@ -321,7 +330,14 @@ def where(c, a=None, b=None):
     k = "bool"
     for x in (a, b):
         k = sym.kind_join(k, x.kind if isinstance(x, Arr) else sym.kind_of(x))
-    return elementwise(lambda cc, x, y: ite(sym.truthy_scalar(cc), x, y), c, a, b, kind=k)
+    out = elementwise(lambda cc, x, y: ite(sym.truthy_scalar(cc), x, y), c, a, b, kind=k)
+    if isinstance(a, Arr) and a.vecfn is not None and isinstance(c, Arr) and is_scalar(b) \
+            and sym.isnan_(b) is True and isinstance(out, Arr) and out.ndim == a.ndim:
+        cb = c.meta.get("bcast_last") if c.ndim == a.ndim else None
+        if cb is not None:
+            av = a.vecfn
+            out.vecfn = lambda lead, cb=cb, av=av: z3.If(zb(sym.truthy_scalar(cb(lead))), av(lead), sym.NANVEC)
+    return out
 
 
 def isclose(a, b, rtol=1e-05, atol=1e-08, equal_nan=False):
@@ -491,7 +507,10 @@ def repeat(a, n, axis=None):
         o = list(idx)
         o[axis] = (0,)
         return f(tuple(o))
-    return Arr(tuple(ax), fn, a.kind)
+    out = Arr(tuple(ax), fn, a.kind)
+    if axis == a.ndim - 1:
+        out.meta["bcast_last"] = lambda lead, f=f: f(tuple(lead) + ((0,),))
+    return out
 
 
 def flatten(a, order="C"):
@@ -916,6 +935,11 @@ def getitem(a, key):
     out = Arr(tuple(res_axes), fn, a.kind, term=term)
     if out.ndim == 0:
         return out.cell(())
+    if a.vecfn is not None and isinstance(key[-1], slice) and key[-1].start is None and key[-1].stop is None \
+            and key[-1].step is None and not any(k is None for k in key):
+        av = a.vecfn
+        lead_maps = maps[:-1]
+        out.vecfn = lambda lead, av=av, lead_maps=lead_maps: av(tuple(m(tuple(lead) + ((0,),)) for m in lead_maps))
     return out
 
 
@@ -1330,20 +1354,39 @@ def _vec(a):
     return a
 
 
+def _bound_vars(n, tag):
+    return tuple(z3.Int(f"{tag}!{j}") for j in range(n))
+
+
 def _argext(a, better, skip_nan, name):
     """first index k such that no element is strictly `better` than a[k]."""
     a = _vec(a)
     c = cur()
-    n = a.extent(0)
-    f = a.snapshot_fn()
     ax = a.axes[0]
+    if len(ax) != 1:
+        a = Arr(((prod(ax),),), (lambda idx, f=a.snapshot_fn(), ax=ax: f((split_index(idx[0][0], ax),))), a.kind)
+        ax = a.axes[0]
+    n = ax[0]
+    f = a.snapshot_fn()
 
     def at(m):
-        return sym.toF(f((split_index(m, ax),)))
+        return sym.toF(f(((m,),)))
     if c.branch(zi(n) <= 0) if not is_pyint(n) else n <= 0:
         raise PyRaise("ValueError", f"attempt to get {name} of an empty sequence")
     if is_pyint(n) and n == 1 and not skip_nan:
         return 0
+    bv = _bound_vars(1, "bv")[0]
+    c.numpy_mode += 1
+    try:
+        probe = at(bv)
+    finally:
+        c.numpy_mode -= 1
+    key = ("argext", name, zi(n).sexpr(), z3.simplify(probe.v).sexpr(), zb(probe.nan).sexpr())
+    if key in c.memo:
+        kind_, val = c.memo[key]
+        if kind_ == "raise":
+            raise PyRaise("ValueError", "All-NaN slice encountered")
+        return val
     if skip_nan:
         # all-NaN -> ValueError
         allnan = c.fresh_bool("allnan")
@@ -1352,6 +1395,7 @@ def _argext(a, better, skip_nan, name):
         add_qfact(n, lambda m: Implies_(allnan, at(m).nan), "allnan")
         ground(w)
         if c.branch(allnan):
+            c.memo[key] = ("raise", None)
             raise PyRaise("ValueError", "All-NaN slice encountered")
     k = c.fresh_int(name)
     c.fact(z3.And(k >= 0, k < zi(n)))
@@ -1363,20 +1407,15 @@ def _argext(a, better, skip_nan, name):
             am = at(m)
             return Implies_(Not_(am.nan), And_(Not_(better(am, ak)), Implies_(am.v == ak.v, zi(k) <= zi(m))))
     else:
-        # NumPy: a NaN wins argmin/argmax (first NaN); modelled for finite data only
-        c.oblige("safe", "finite", zb(Not_(_any_nan(a))) if False else True, None)
-
+        # NumPy: a NaN wins argmin/argmax; the fact below only speaks about finite data
         def body(m):
             am = at(m)
             return Implies_(And_(Not_(am.nan), Not_(ak.nan)),
                             And_(Not_(better(am, ak)), Implies_(am.v == ak.v, zi(k) <= zi(m))))
     add_qfact(n, body, name)
     ground(k)
+    c.memo[key] = ("val", k)
     return k
-
-
-def _any_nan(a):
-    return False
 
 
 def argmin(a, axis=None):
@@ -1414,17 +1453,34 @@ def any_(a, axis=None):
     if a.ndim == 0:
         return sym.truthy_scalar(a.cell(()))
     a = _vec(a)
-    n = a.extent(0)
-    f = a.snapshot_fn()
     ax = a.axes[0]
-    if is_pyint(n) and n <= 6:
-        return Or_(*[sym.truthy_scalar(f((split_index(j, ax),))) for j in range(n)])
+    f = a.snapshot_fn()
+    tot = prod(ax)
+    if is_pyint(tot) and tot <= 6 and all(is_pyint(x) for x in ax):
+        return Or_(*[sym.truthy_scalar(f((split_index(j, ax),))) for j in range(tot)])
     c = cur()
+
+    def P(m):
+        c.numpy_mode += 1
+        try:
+            return sym.truthy_scalar(f((tuple(m),)))
+        finally:
+            c.numpy_mode -= 1
+    bv = _bound_vars(len(ax), "bv")
+    pb = P(bv)
+    if isinstance(pb, bool):
+        if not pb:
+            return False
+        return simp(zi(tot) > 0) if not is_pyint(tot) else tot > 0
+    key = ("any", tuple(zi(x).sexpr() for x in ax), z3.simplify(pb).sexpr())
+    if key in c.memo:
+        return c.memo[key]
     b = c.fresh_bool("any")
-    w = c.fresh_int("w")
-    c.fact(z3.Implies(b, z3.And(w >= 0, w < zi(n), zb(sym.truthy_scalar(f((split_index(w, ax),)))))))
-    add_qfact(n, lambda m: Implies_(sym.truthy_scalar(f((split_index(m, ax),))), b), "any")
-    ground(w)
+    w = tuple(c.fresh_int("w") for _ in ax)
+    c.fact(z3.Implies(b, z3.And(*[z3.And(x >= 0, x < zi(n)) for x, n in zip(w, ax)], zb(P(w)))))
+    add_qfact(ax, lambda m: Implies_(P(m), b), "any")
+    ground(*w)
+    c.memo[key] = b
     return b
 
 
